@@ -100,8 +100,8 @@ CHECKS["C06"] = dict(
 
 CHECKS["C07"] = dict(
     title="PIP solution tree evaluates to the lexicographic minimum for every parameter assignment",
-    quick=T([("c07_pip", 1)], cases=6000, secs=70),
-    thorough=T([("c07_pip", 1)], cases=60000, secs=900, flavour="san"),
+    quick=T([("c07_pip", 1)], cases=150000, secs=90),
+    thorough=T([("c07_pip", 1)], cases=1500000, secs=1200, flavour="san"),
     rule="case = PIP_Problem over 1-3 variables, 0-2 parameters, 0-5 constraints (=, >=, >; coefficients in [-4,4]), optional context rows, "
          "optional big parameter, every CUTTING_STRATEGY x PIVOT_ROW_STRATEGY, followed by a history (solve; add constraints / dimensions / "
          "parameters; copy, assign, swap; change of strategy; solve again); oracle: the tree is walked through the public interface at every "
@@ -115,10 +115,47 @@ CHECKS["C07"] = dict(
     assumptions=["brute-force oracle window (variables 0..ub or a window of 0..10 around the tree's values) contains the lexicographic minimum when the rows bound the variables"],
 )
 
+CHECKS["C09"] = dict(
+    title="Pointset_Powerset operations denote the exact set-theoretic result; reductions keep the set",
+    quick=T([("c09_powerset", 1)], cases=40000, secs=90),
+    thorough=T([("c09_powerset", 1)], cases=400000, secs=1200, flavour="san"),
+    rule="case = program over a pool of Pointset_Powerset<D> objects, D in {C_Polyhedron, NNC_Polyhedron, BD_Shape<mpq_class>, Rational_Box, Grid}, "
+         "1-3 dimensions, 0-4 disjuncts each (redundant, empty, overlapping and adjacent disjuncts generated on purpose): add_disjunct, "
+         "intersection, upper_bound, difference, concatenate, time_elapse, affine image/preimage, dimension operators, omega_reduce, "
+         "pairwise_reduce, simplify_using_context, topological closure, the geometric predicates (covers, equals, contains, disjoint, "
+         "is_universe, is_empty, is_bounded, ...). Oracle: a model holding the disjuncts as exact reference objects (ref::Sys unions with "
+         "refgeom difference/covering, rl::Grid lattices); after every step the powerset must denote the model's union exactly (or soundly "
+         "where the base domain is inexact), reductions must not change the set, omega_reduce must leave no entailed disjunct. "
+         "Non-trivial: at least two disjuncts in an operand and a result that differs from both operands.",
+    technique="property-based testing (stateful operation programs, exact reference model of finite unions)",
+    level_text="Generated-program exploration against an exact reference model of finite unions.",
+    level_note="operators without exact reference semantics on shapes/boxes are checked against the base operator applied disjunct-wise.",
+    design_ref="DESIGN.md 4 C09",
+    assumptions=["reference geometry (ref/refgeom.hh, ref/reflattice.hh) is correct"],
+)
+
+CHECKS["C10"] = dict(
+    title="Partially reduced products: reductions never change the intersection; operations are sound on it",
+    quick=T([("c10_product", 1)], cases=30000, secs=90),
+    thorough=T([("c10_product", 1)], cases=300000, secs=1200, flavour="san"),
+    rule="case = program over a pool of Partially_Reduced_Product<D1,D2,R> objects for 22 instances (C/NNC polyhedra, BD shapes, octagons, "
+         "boxes, grids; No / Smash / Constraints / Congruences / Shape_Preserving reductions), 1-3 dimensions, inconsistent component pairs "
+         "generated on purpose; components are read without triggering reduce() through a derived class. Oracle: the intersection of the "
+         "two components in exact reference arithmetic (ref::Sys for constraint domains, rl::Grid plus point windows for grid pairs): after "
+         "every observer and every reduce() the intersection is unchanged and no component grew; after every transformer the exact image "
+         "of the intersection is included in the result; observers answer for the intersection where the documentation says so. "
+         "Non-trivial: a reduction changed a component, or the two components differ and the operation result depends on both.",
+    technique="property-based testing (stateful programs, exact reference model of the component intersection, metamorphic reduce() invariance)",
+    level_text="Generated-program exploration against an exact model of the intersection of the components.",
+    level_note="widening_assign is not generated (its precondition cannot be guaranteed under reductions); grid pairs are judged on point windows.",
+    design_ref="DESIGN.md 4 C10",
+    assumptions=["reference geometry and lattice models are correct"],
+)
+
 CHECKS["C11"] = dict(
     title="Checked arithmetic: result relation, rounding direction and special values are truthful",
-    quick=T([("c11_num", 1)], cases=100000, secs=70),
-    thorough=T([("c11_num", 1)], cases=1500000, secs=900, flavour="rel"),
+    quick=T([("c11_num", 1)], cases=600000, secs=90),
+    thorough=T([("c11_num", 1)], cases=8000000, secs=1200, flavour="rel"),
     rule="case = one checked operation (assign_r, construct, neg, abs, add, sub, mul, div, idiv, rem, sqrt, gcd, lcm, gcdext, add_mul, sub_mul, "
          "*_2exp, floor/ceil/trunc, comparisons, sgn, is_integer, classify) on operands drawn from boundary-biased generators for every native "
          "integer width, float, double, long double, mpz, mpq under the policies shipped with PPL (native, extended, bounded, WRD), every "
@@ -131,6 +168,25 @@ CHECKS["C11"] = dict(
     level_note="ROUND_NOT_NEEDED exactness is not asserted for multi-step operations; smod_2exp with exp 0 and float *_2exp with exp >= 64 are treated as preconditions.",
     design_ref="DESIGN.md 4 C11",
     assumptions=["GMP mpq arithmetic is exact"],
+)
+
+CHECKS["C17"] = dict(
+    title="wrap_assign / drop_some_non_integer_points / contains_integer_point are sound for integer points",
+    quick=T([("c17_wrap", 1)], cases=40000, secs=90),
+    thorough=T([("c17_wrap", 1)], cases=400000, secs=1200, flavour="san"),
+    rule="case = object of C/NNC polyhedron, BD_Shape<mpq|int32>, Octagonal_Shape<mpq>, Pointset_Powerset<C_Polyhedron>, Rational/Double box or "
+         "Grid over 1-3 dimensions with values straddling the 8/16/32/64-bit ranges; wrap_assign with every width, representation, overflow "
+         "mode, optional guard constraints, complexity threshold 0-20, individual/collective wrapping; drop_some_non_integer_points (both "
+         "overloads, three complexity classes); contains_integer_point. Oracle: integer points of the argument sampled exactly (vertices, "
+         "lattice points of a window, points forced across the wrap boundaries): each wrapped image (computed by plain modular arithmetic) "
+         "satisfying the guard must belong to the result; no integer point may be lost by drop_some_non_integer_points; "
+         "contains_integer_point is compared with exhaustive enumeration on bounded cases. Non-trivial: some sampled point actually wraps "
+         "(changes quadrant), or the object has non-integer vertices.",
+    technique="property-based testing (point-wise soundness oracle by modular arithmetic, exhaustive integer enumeration on bounded windows)",
+    level_text="Generated-input exploration with a point-wise soundness oracle.",
+    level_note="precision of wrap_assign is only checked for the documented grid rule; Partially_Reduced_Product is not covered.",
+    design_ref="DESIGN.md 4 C17",
+    assumptions=["sampled integer points are representative (soundness is checked point-wise, not for the whole set)"],
 )
 
 CHECKS["C18"] = dict(
